@@ -591,6 +591,16 @@ func ruleR11f(c *Check) {
 						if lits[f] {
 							searches = true
 						}
+						// the search as a (recursive) function or method of its own
+						if !lits[f] && engine.InPackage(f, "dag") && f != fc && len(f.Blocks) > 0 {
+							for _, inner := range engine.SitesIn(f) {
+								for _, g := range c.G.CalleesOf(inner) {
+									if g == f {
+										searches = true
+									}
+								}
+							}
+						}
 					}
 				}
 			}
@@ -652,8 +662,15 @@ func ruleR11e(c *Check) {
 	n := 0
 	// the detector and the function literals it defines (a pair enumerator written as a closure, say)
 	var detSites []ssa.CallInstruction
+	isPredicate := func(f *ssa.Function) bool {
+		return engine.InPackage(f, "analysis") && f.Signature.Results().Len() == 1 && f.Signature.Results().At(0).Type().String() == "bool" && f.Signature.Params().Len() >= 2
+	}
+	// ... and the functions of the package it was split into (methods of a finder object, say), but not the
+	// bodies of the pairwise predicates themselves
+	detRegion := c.G.ReachableFuncs([]*ssa.Function{det}, func(f *ssa.Function) bool { return f != det && (!engine.InPackage(f, "analysis") || isPredicate(engine.TopFunc(f))) })
 	for _, f := range c.P.Funcs {
-		if f == det || engine.TopFunc(f) == det {
+		top := engine.TopFunc(f)
+		if f == det || top == det || (detRegion[top] && engine.InPackage(top, "analysis") && !isPredicate(top)) {
 			detSites = append(detSites, engine.SitesIn(f)...)
 		}
 	}
